@@ -126,15 +126,15 @@ func (x *XRefParser) FindXRef() (int64, error) {
 		return 0, fmt.Errorf("startxref not found in PDF")
 	}
 
-	// Parse the offset after startxref
+	// Parse the offset after startxref. It is on the next line; the line may end
+	// with any PDF end-of-line marker (CR, LF or CR LF), so split on white space.
 	afterStartXRef := content[idx+len("startxref"):]
-	lines := strings.Split(afterStartXRef, "\n")
-	if len(lines) < 2 {
+	fields := strings.Fields(afterStartXRef)
+	if len(fields) < 1 {
 		return 0, fmt.Errorf("invalid startxref format")
 	}
 
-	// The offset should be on the next line
-	offsetStr := strings.TrimSpace(lines[1])
+	offsetStr := fields[0]
 	offset, err := strconv.ParseInt(offsetStr, 10, 64)
 	if err != nil {
 		return 0, fmt.Errorf("invalid xref offset: %w", err)
@@ -173,11 +173,43 @@ func (x *XRefParser) ParseXRef(offset int64) (*XRefTable, error) {
 	return x.parseTraditionalXRef()
 }
 
+// scanPDFLines is a bufio.SplitFunc that ends a line at any of the PDF
+// end-of-line markers: CR, LF or CR LF (ISO 32000-1, 7.2.3). bufio.ScanLines
+// only knows LF and CR LF, which makes files written with CR alone unreadable.
+func scanPDFLines(data []byte, atEOF bool) (advance int, token []byte, err error) {
+	if atEOF && len(data) == 0 {
+		return 0, nil, nil
+	}
+	for i, b := range data {
+		if b == '\n' {
+			return i + 1, data[:i], nil
+		}
+		if b == '\r' {
+			if i+1 < len(data) {
+				if data[i+1] == '\n' {
+					return i + 2, data[:i], nil
+				}
+				return i + 1, data[:i], nil
+			}
+			if atEOF {
+				return i + 1, data[:i], nil
+			}
+			// need one more byte to see whether LF follows
+			return 0, nil, nil
+		}
+	}
+	if atEOF {
+		return len(data), data, nil
+	}
+	return 0, nil, nil
+}
+
 // isXRefStream checks if the xref at the current position is a stream (PDF 1.5+)
 // rather than a traditional table. Traditional tables start with "xref", while
 // streams start with an object definition like "5 0 obj".
 func (x *XRefParser) isXRefStream() (bool, error) {
 	scanner := bufio.NewScanner(x.reader)
+	scanner.Split(scanPDFLines)
 	if !scanner.Scan() {
 		return false, fmt.Errorf("failed to read first line")
 	}
@@ -207,6 +239,7 @@ func (x *XRefParser) isXRefStream() (bool, error) {
 // The format is: "xref\n<subsections>\ntrailer\n<dict>\nstartxref\n<offset>\n%%EOF"
 func (x *XRefParser) parseTraditionalXRef() (*XRefTable, error) {
 	scanner := bufio.NewScanner(x.reader)
+	scanner.Split(scanPDFLines)
 
 	// Read "xref" keyword
 	if !scanner.Scan() {
